@@ -218,6 +218,8 @@ def main():
               {"name": "gcc-O1-nobuiltin-uchar", "cc": "gcc", "cflags": ("-O1", "-D__has_builtin(x)=0", "-funsigned-char")}]
     # clang selects other builtins than gcc in the runtime header
     builds.append({"name": "clang-O2", "cc": "clang", "cflags": ("-O2",)})
+    # the annotated (pretty) form of the output is other text for the same operations
+    builds.append({"name": "gcc-O1-pretty", "cc": "gcc", "cflags": ("-O1",), "w2c2_opts": ("-m", "-p")})
     # for this very machine (whatever instruction-set extensions it has: lzcnt, bmi, popcnt, ... select other code paths)
     builds.append({"name": "gcc-O2-native", "cc": "gcc", "cflags": ("-O2", "-march=native")})
     if tier != "quick":
